@@ -164,3 +164,24 @@ Proof.
   by rewrite (@foldl_one _ (fun R => R == R0) (fun _ => v) _ _ R0) // => R _ /eqP.
 Qed.
 End Block.
+
+(** the block constructor on a single block: Matrix({{A}}) is A itself, whatever its entries are (every entry is
+    copied; none is skipped, rounded or tested).  For a well-formed A of any shape, 0 x 0 included. *)
+Section BlockSingle.
+Context {T : Type} (Ops : NumOps T).
+Theorem mat_block_single (A : mat T) : wf_mat A -> mat_block Ops [:: [:: A]] = Ok A.
+Proof.
+  move=> HA.
+  have Hok : grid_ok [:: [:: A]].
+    split=> //.
+    - by case=> [|R].
+    - by case=> [|R] // [|C].
+    - by case=> [|R] // [|C].
+  have [M -> [HM Hr Hc He]] := mat_block_valid Ops Hok.
+  congr Ok; apply: (mat_ext (Ops := Ops)) => //.
+  - by rewrite Hr /= addn0.
+  - by rewrite Hc /= addn0.
+  - move=> i j; rewrite Hr Hc /= !addn0 => Hi Hj.
+    by have := He 0 0 i j isT isT Hi Hj; rewrite /ioff /joff /off /= !add0n.
+Qed.
+End BlockSingle.
